@@ -32,6 +32,12 @@ pub enum Extra {
     OtherUnknownType,
     /// unrelated item without any data box (a free box inside)
     OtherNoData,
+    /// a title item without any data box — only generated under handlers other than mdir (the list is then not iTunes data)
+    KnownNoData,
+    /// a poster item whose data box has type 14 (PNG) — only under handlers other than mdir
+    KnownPngType,
+    /// a child of the list that is too short to be a box followed by bytes that are not boxes — only under other handlers
+    NotBoxes,
 }
 
 #[derive(Clone, Debug)]
@@ -48,6 +54,28 @@ pub struct MetaCase {
     /// 0 = non-fragmented file; 1 = fragmented movie, one stream; 2 = fragmented movie, the accessors are asked on the
     /// reader derived for a separately opened media segment (read_header on the init segment, then read_fragment_header)
     pub delivery: u8,
+    /// Some(k): the k-th box (depth-first) of the user-data subtree is written with the 64-bit size header
+    pub large_nth: Option<usize>,
+}
+
+fn set_large_nth(n: &mut Node, k: &mut usize) -> bool {
+    if *k == 0 {
+        n.large = true;
+        return true;
+    }
+    *k -= 1;
+    if let Some(kids) = n.children_mut() {
+        for c in kids.iter_mut() {
+            if set_large_nth(c, k) {
+                return true;
+            }
+        }
+    }
+    false
+}
+
+fn count_boxes(n: &Node) -> usize {
+    1 + n.children().map(|k| k.iter().map(count_boxes).sum::<usize>()).unwrap_or(0)
 }
 
 fn text(len: usize) -> String {
@@ -106,6 +134,9 @@ fn item_nodes(c: &MetaCase) -> Vec<Node> {
             Extra::OtherText => ilst_item(&[0xa9, b't', b'o', b'o'], 1, b"Lavf58.76.100"),
             Extra::OtherUnknownType => ilst_item(b"tmpo", 99, &[0, 120]),
             Extra::OtherNoData => Node::kids(b"----", vec![Node::leaf(b"mean", b"\0\0\0\0com.apple.iTunes".to_vec())]),
+            Extra::KnownNoData => Node::kids(&[0xa9, b'n', b'a', b'm'], vec![Node::leaf(b"free", vec![1, 2, 3])]),
+            Extra::KnownPngType => ilst_item(b"covr", 14, &[0x89, b'P', b'N', b'G']),
+            Extra::NotBoxes => Node::leaf(b"desc", vec![0, 0, 0, 3, 0xff, 0xff, 0xff]),
         };
         let p = pos.min(items.len());
         items.insert(p, n);
@@ -118,12 +149,16 @@ pub fn build(c: &MetaCase) -> (Vec<u8>, Option<Vec<u8>>) {
     let hd = hdlr(0, 0, &c.handler, "");
     let il = ilst(item_nodes(c));
     let mt = meta(c.full_meta, vec![hd, il]);
-    let extra = match c.placement {
+    let mut extra = match c.placement {
         0 => vec![udta(vec![mt])],
         1 => vec![],
         2 => vec![udta(vec![Node::leaf(b"name", b"x".to_vec())])],
         _ => vec![mt],
     };
+    if let (Some(k), Some(root)) = (c.large_nth, extra.first_mut()) {
+        let mut k = k;
+        set_large_nth(root, &mut k);
+    }
     if c.delivery == 0 {
         let t = LTrack::simple(1, Codec::Avc, 1000, vec![LSample { size: 2, delta: 40, cts: 0, sync: true }], vec![1]);
         let mut m = LMovie::new(1000, vec![t]);
@@ -151,7 +186,7 @@ pub fn judge(c: &MetaCase, l: &mut Local) {
     let case = || {
         let mut v = json!({"engine": "shape_meta", "title": c.tags.title.as_ref().map(|s| s.len()), "year": format!("{:?}", c.tags.year), "poster": c.tags.poster.as_ref().map(|p| p.len()),
             "desc": c.tags.desc.as_ref().map(|s| s.len()), "order": c.order, "extras": c.extras.iter().map(|(p, k)| json!([p, format!("{:?}", k)])).collect::<Vec<_>>(),
-            "handler": hex(&c.handler), "full_meta": c.full_meta, "placement": c.placement, "delivery": c.delivery,
+            "handler": hex(&c.handler), "full_meta": c.full_meta, "placement": c.placement, "delivery": c.delivery, "large_nth": c.large_nth,
             "title_text": c.tags.title.as_ref().filter(|s| s.len() <= 16), "desc_text": c.tags.desc.as_ref().filter(|s| s.len() <= 16)});
         if bytes.len() <= 4096 {
             v["input_hex"] = json!(hex(&bytes));
@@ -314,29 +349,49 @@ pub fn run(tier: Tier, seed: u64) -> i32 {
         .fold(Local::default, |mut l, tags| {
             for h in handlers {
                 for full in [true, false] {
-                    judge(&MetaCase { tags: tags.clone(), order: vec![0, 1, 2, 3], extras: vec![], handler: h, full_meta: full, placement: 0, delivery: 0 }, &mut l);
+                    judge(&MetaCase { tags: tags.clone(), order: vec![0, 1, 2, 3], extras: vec![], handler: h, full_meta: full, placement: 0, delivery: 0, large_nth: None }, &mut l);
                 }
             }
             if !big(tags) || th {
                 for o in orders.iter() {
                     for ex in extra_sets.iter() {
-                        judge(&MetaCase { tags: tags.clone(), order: o.clone(), extras: ex.clone(), handler: *b"mdir", full_meta: true, placement: 0, delivery: 0 }, &mut l);
+                        judge(&MetaCase { tags: tags.clone(), order: o.clone(), extras: ex.clone(), handler: *b"mdir", full_meta: true, placement: 0, delivery: 0, large_nth: None }, &mut l);
                     }
                 }
                 for ex in extra_sets.iter().take(16) {
-                    judge(&MetaCase { tags: tags.clone(), order: vec![0, 1, 2, 3], extras: ex.clone(), handler: *b"mdir", full_meta: false, placement: 0, delivery: 0 }, &mut l);
+                    judge(&MetaCase { tags: tags.clone(), order: vec![0, 1, 2, 3], extras: ex.clone(), handler: *b"mdir", full_meta: false, placement: 0, delivery: 0, large_nth: None }, &mut l);
                 }
             }
             // the same movie delivered fragmented: in one stream, and through the reader derived for a media segment
             for delivery in 1..=2u8 {
                 for h in handlers {
                     for placement in [0u8, 3] {
-                        judge(&MetaCase { tags: tags.clone(), order: vec![0, 1, 2, 3], extras: vec![], handler: h, full_meta: true, placement, delivery }, &mut l);
+                        judge(&MetaCase { tags: tags.clone(), order: vec![0, 1, 2, 3], extras: vec![], handler: h, full_meta: true, placement, delivery, large_nth: None }, &mut l);
                     }
                 }
             }
             for placement in 1..=3u8 {
-                judge(&MetaCase { tags: tags.clone(), order: vec![0, 1, 2, 3], extras: vec![], handler: *b"mdir", full_meta: true, placement, delivery: 0 }, &mut l);
+                judge(&MetaCase { tags: tags.clone(), order: vec![0, 1, 2, 3], extras: vec![], handler: *b"mdir", full_meta: true, placement, delivery: 0, large_nth: None }, &mut l);
+            }
+            if !big(tags) || th {
+                // every box of the user-data subtree in turn with the 64-bit size header
+                for full in [true, false] {
+                    let probe = MetaCase { tags: tags.clone(), order: vec![0, 1, 2, 3], extras: vec![(1, Extra::OtherText)], handler: *b"mdir", full_meta: full, placement: 0, delivery: 0, large_nth: None };
+                    let nboxes = count_boxes(&udta(vec![meta(full, vec![hdlr(0, 0, b"mdir", ""), ilst(item_nodes(&probe))])]));
+                    for k in 0..nboxes {
+                        judge(&MetaCase { large_nth: Some(k), ..probe.clone() }, &mut l);
+                    }
+                }
+                // lists that are not iTunes data under a handler that does not say they are: the file opens, nothing is reported
+                for h in [*b"mdta", [0u8; 4]] {
+                    for kind in [Extra::KnownNoData, Extra::KnownPngType, Extra::NotBoxes] {
+                        for pos in [0usize, 4] {
+                            for full in [true, false] {
+                                judge(&MetaCase { tags: tags.clone(), order: vec![0, 1, 2, 3], extras: vec![(pos, kind)], handler: h, full_meta: full, placement: 0, delivery: 0, large_nth: None }, &mut l);
+                            }
+                        }
+                    }
+                }
             }
             l
         })
@@ -354,7 +409,8 @@ pub fn run(tier: Tier, seed: u64) -> i32 {
     ev.set("exhaustive", json!(true));
     ev.set("enumeration", json!({"tag_sets": n_tags, "title_payloads": "absent + lengths 0,1,4,5,300,70000 (valid UTF-8 incl. 2-,3-,4-byte characters) + 6 edge texts (NUL / blank / newline / BOM at either end)", "year": "absent + text 0,7,2024,4294967295 + binary 0,2024,2^32-1",
         "poster": "absent + 0,1,300,70000 bytes (type 13)", "summary": "absent + 0,5,300 bytes + the 6 edge texts", "deliveries": ["non-fragmented file", "fragmented, one stream", "fragmented, reader derived by read_fragment_header from the init segment's reader"], "orders": orders.len(), "extra_item_sets": extra_sets.len(), "handlers": ["mdir", "mdta", "0000"], "meta_forms": ["FullBox", "QuickTime (no version word)"],
-        "placements": ["udta/meta", "no udta", "udta without meta", "meta directly in moov"]}));
+        "placements": ["udta/meta", "no udta", "udta without meta", "meta directly in moov"],
+        "header_forms": "every box of the user-data subtree in turn with the 64-bit size header", "non_itunes_lists": "under handlers mdta/zero: title item without data box, poster with type 14, child bytes that are not boxes"}));
     ev.set("outcome_classes", Value::Object(l.outcomes.iter().map(|(k, v)| (k.clone(), json!(v))).collect()));
     ev.set("samples", json!([
         {"title_len": 5, "year": "Text(2024)", "poster_len": 300, "desc_len": 0, "handler": "mdir", "expect": "all four values"},
